@@ -123,6 +123,8 @@ def run_check(prop, tier, seed, keep=False):
     cases = scripts.select_cases(prop, tier, seed, cases)
     tm = drive(prop, tier, seed, cases)
     traces = [t for t, _ in tm]
+    if len({t['id'] for t in traces}) != len(traces):
+        raise tlc.TLCError('trace ids are not unique')
     metas = {t['id']: m for t, m in tm}
     nev = sum(len(t['ev']) for t in traces)
     log('[%s] %d traces, %d events recorded from the library (%.1fs)' % (prop, len(traces), nev, time.time() - t0))
